@@ -1,6 +1,10 @@
 // Package base32 implements utilities for encoding and decoding text using I2P's alphabet
 package base32
 
+import (
+	b32 "encoding/base32"
+)
+
 // EncodeToString encodes binary data to a base32 string using I2P's encoding alphabet.
 // It converts arbitrary byte data into a human-readable base32 string representation
 // using the I2P-specific lowercase alphabet defined in RFC 3548.
@@ -18,7 +22,38 @@ func EncodeToString(data []byte) string {
 func DecodeString(data string) ([]byte, error) {
 	// Parse I2P-specific base32 string with error handling
 	// Validates input characters against I2P alphabet before decoding
+	if err := validatePaddedInput(data); err != nil {
+		return nil, err
+	}
 	return I2PEncoding.DecodeString(data)
+}
+
+// validatePaddedInput rejects input that encoding/base32 would accept without looking at it:
+// the standard decoder stops at the first padded group, so any characters after the padding
+// (spaces, NUL bytes, further data, surplus '=') would otherwise be ignored silently.
+// Only '=' and line breaks may follow the first '=', and a padded string is a whole number
+// of 8-character groups.
+func validatePaddedInput(data string) error {
+	characters := 0
+	padded := false
+	for i := 0; i < len(data); i++ {
+		c := data[i]
+		if c == '\r' || c == '\n' {
+			continue
+		}
+		characters++
+		if c == '=' {
+			padded = true
+			continue
+		}
+		if padded {
+			return b32.CorruptInputError(i)
+		}
+	}
+	if padded && characters%8 != 0 {
+		return b32.CorruptInputError(len(data))
+	}
+	return nil
 }
 
 // EncodeToStringNoPadding encodes binary data to an unpadded base32 string using I2P's encoding alphabet.
@@ -62,6 +97,9 @@ func DecodeStringSafe(data string) ([]byte, error) {
 	}
 	if len(data) > MAX_DECODE_SIZE {
 		return nil, ErrInputTooLarge
+	}
+	if err := validatePaddedInput(data); err != nil {
+		return nil, err
 	}
 	return I2PEncoding.DecodeString(data)
 }
